@@ -345,6 +345,11 @@ func DisplayLine(l *Line, indent int) {
 		if num < len(lines)-1 {
 			if !atMargin {
 				line += term.ClearLineAfter
+			} else {
+				// The line fills its last row: like the last line of the buffer in
+				// that case, it is counted (and given) one more, empty row, so that
+				// the cursor has a cell to be on after its last character.
+				line += term.NewlineReturn + term.ClearLineAfter
 			}
 
 			line += term.NewlineReturn
